@@ -18,20 +18,20 @@ import (
 
 // Super is the supervisor state for one check invocation.
 type Super struct {
-	Check   *Check
-	Tier    string
-	Seed    int64
-	Scratch string
+	Check    *Check
+	Tier     string
+	Seed     int64
+	Scratch  string
 	VerifDir string
 
-	merged   PhaseResult
-	sets     map[string]map[uint64]struct{}
-	phasesRun int
-	crashes   int
-	races     []RaceReport
+	merged     PhaseResult
+	sets       map[string]map[uint64]struct{}
+	phasesRun  int
+	crashes    int
+	races      []RaceReport
 	raceBlocks int
-	infra    []string // infrastructure problems (exit 2)
-	start    time.Time
+	infra      []string // infrastructure problems (exit 2)
+	start      time.Time
 }
 
 // RaceReport is one de-duplicated race-detector report.
@@ -546,6 +546,7 @@ func (s *Super) finish() int {
 	ck := s.Check
 	// races
 	gldapRaces := 0
+	selftest := 0
 	for _, r := range s.races {
 		switch r.Attribution {
 		case "gldap":
@@ -558,9 +559,17 @@ func (s *Super) finish() int {
 				})
 			}
 		case "harness":
-			if ck.RaceIsViolation {
+			if r.Phase == "selftest" {
+				selftest++
+			} else if ck.RaceIsViolation {
 				s.infra = append(s.infra, "race report attributed to harness code: "+strings.Join(r.Stacks, " | "))
 			}
+		}
+	}
+	if ck.ID == "C15" {
+		s.merged.Counts["detector_selftest_reports"] = int64(selftest)
+		if selftest == 0 {
+			s.merged.Inconclusive = append(s.merged.Inconclusive, "the deliberate self-test race was not reported: the race detector is not live")
 		}
 	}
 
